@@ -76,7 +76,7 @@ class Check:
         self.tlc_runs.append({"run": name, "kind": kind, "states_generated": r.generated,
                               "distinct_states": r.distinct, "depth": r.depth,
                               "wall_s": round(r.wall_s, 2), "ok": r.ok, "violated": r.violated,
-                              "json_cases": len(r.json_lines),
+                              "json_cases": len(r.json_raw),
                               "coverage": {k: list(v) for k, v in r.coverage.items()}})
         self.states += r.distinct
         self.transitions += r.generated
